@@ -61,6 +61,7 @@ type hcExchange struct {
 	RHdr     [][2]string `json:"rhdr"`
 	RBodyLen int         `json:"rbody_len"`
 	RChunked bool        `json:"rchunked"`
+	RLastCoalesced bool  `json:"rlast_coalesced"` // chunked backend body: the last data piece is sent together with the terminating chunk
 	RGzip    bool        `json:"rgzip"`
 	RGzipBad int         `json:"rgzip_bad"` // with RGzip: 1 = gzip stream cut short, 2 = wrong CRC trailer (the declared length matches the bytes sent)
 	RShort   int         `json:"rshort"` // >0: declare RBodyLen, send RShort bytes fewer, then close
@@ -98,6 +99,7 @@ type hcScenario struct {
 	// four limits between two rounds of exchanges
 	// C03 only: a mirror pool (requests carrying "X-Mirror: 1" are copied to a
 	// second backend, which is healthy, slow, resetting, answering big or down)
+	PoolTimeout string `json:"pool_timeout"` // pool `timeout` (a value that never fires for a healthy backend, e.g. "10m")
 	Mirror string `json:"mirror"` // "", ok, slow, reset, big, down
 	// C03 only: the pool's server list comes from the service registry (delivered
 	// after the pool exists, as its registry watcher does); ip4 and host forms only
@@ -293,6 +295,9 @@ func (c *hcChain) pipeYAML(lim hcLimits) string {
 	}
 	if sc.Retry > 1 {
 		filters.WriteString("    retryPolicy: retry\n    failureCodes: [502]\n")
+	}
+	if sc.PoolTimeout != "" {
+		fmt.Fprintf(&filters, "    timeout: %s\n", sc.PoolTimeout)
 	}
 	if sc.Discovered {
 		// the static entry is a dead placeholder; the live instance arrives by HCUseService
@@ -592,10 +597,12 @@ func (c *hcChain) backendHandler(w http.ResponseWriter, req *http.Request) {
 				n = len(wire) - off
 			}
 			w.Write(wire[off : off+n])
-			if fl != nil {
+			off += n
+			// the last piece is not flushed on its own: it reaches the proxy in one
+			// segment with the terminating chunk (data and end of body in one read)
+			if fl != nil && (off < len(wire) || !ex.RLastCoalesced) {
 				fl.Flush()
 			}
-			off += n
 		}
 		return
 	}
